@@ -6,7 +6,7 @@ judgement about the projected state is made by TLC (spec/Trace*.tla).
 Encoding rules (forced by TLC's JSON reader: no null, no non-integers, no {}):
   number  -> {"t":"q","n","d","x","s","sf","i","h"}
              n/d   recovered fraction (exact dyadic if small, else limit_denominator)
-             x     1 iff n/d is the value (|err| <= 1e-12*max(1,|v|))
+             x     1 iff n/d is the value (|err| <= 1e-12*|v|; 1e-12 around 0)
              s,sf  round(v*1e6), valid iff |v| < 2000
              i     1 iff the Python object is an int
              h     float.hex() of the value (bit-exact identity; -0.0 folded into 0.0)
@@ -40,7 +40,9 @@ def frac(v):
     D = max(1, min(10**6, int(2**30 / max(1.0, abs(f)))))
     fr = Fraction(f).limit_denominator(D)
     err = abs(fr - Fraction(f))
-    exact = 1 if err <= Fraction(1, 10**12) * max(1, abs(fr)) else 0
+    # relative to the value (below 1 an absolute 1e-12 would accept a wrong small fraction for a
+    # sub-cent price); a float that is noise around 0 still counts as 0
+    exact = 1 if err <= Fraction(1, 10**12) * (abs(fr) if fr != 0 else 1) else 0
     return fr.numerator, fr.denominator, exact
 
 
